@@ -184,7 +184,9 @@ const ALPHABET: [u8; 16] = [0, 1, 2, 3, 4, 5, 6, 7, b'0', b'9', b'a', b'b', b'B'
 
 fn grammar_packets(rng: &mut Rng) -> Vec<Vec<u8>> {
     // valid packets of all six kinds, option names in several spellings
-    let names = ["blksize", "BLKSIZE", "BlkSize", "tsize", "TSIZE", "timeout", "TimeOut", "windowsize", "WINDOWSIZE", "WindowSize", "unknown", "x", ""];
+    // incl. characters whose lower-case form has a different UTF-8 length (U+0130, U+023A, U+023E longer; U+212A shorter)
+    let names = ["blksize", "BLKSIZE", "BlkSize", "tsize", "TSIZE", "timeout", "TimeOut", "windowsize", "WINDOWSIZE", "WindowSize", "unknown", "x", "",
+        "\u{130}", "blks\u{130}ze", "\u{130}\u{130}\u{130}", "\u{23A}\u{23E}", "\u{212A}", "t\u{212A}size", "\u{1C5}", "\u{df}"];
     let values = ["0", "1", "8", "512", "65464", "65465", "65535", "65536", "4294967296", "18446744073709551615", "18446744073709551616", "-1", "+5", "007", "1e3", "", "abc", "9 ", "０"];
     let mut v = Vec::new();
     for op in [wire::OP_RRQ, wire::OP_WRQ] {
